@@ -3,7 +3,7 @@
    Model/Cable.v (assembly of the cable system of a cell; schemes).  The conductance
    formulas G*.X are regenerated from /repo on every run. *)
 From Coq Require Import Reals List.
-From JV Require Import Prim TreeSolve TreeSolveFacts Cable GCellUtils CableFacts.
+From JV Require Import Prim TreeSolve TreeSolveFacts Cable GCellUtils CableFacts HinesArr HinesCheck HinesArrFacts.
 Import ListNotations.
 Local Open Scope R_scope.
 
@@ -67,3 +67,40 @@ Example C01_nonvacuous :
   let branches := [[c; c]; [c]; [c; c; c]; [c; c]; [c; c]] in
   well_formed branches /\ sorted [0; 0; 0; 1; 1]%nat /\ length [0; 0; 0; 1; 1]%nat = length branches.
 Proof. exact c01_example. Qed.
+
+(* ---- the array level: jaxley/solver_voltage.py as written (flat padded arrays, levels,
+   tridiax' normalising Thomas variant), Model/HinesArr.v.  If the verified checker accepts
+   the schedule that an index structure induces and no operation divides by zero, then for
+   ALL contents of the arrays the solves array after triangulation and back-substitution
+   is a solution of the linear system the arrays represented before, and every solution
+   of that system coincides with it on every (real or padded) compartment slot.  The
+   checker is evaluated on the index structure of every sampled module in every run. *)
+Theorem C01_array_solver_correct : forall (ly : layout) (tp : topo) (ops : list op) (s0 : store R),
+  check_schedule ly tp ops = true ->
+  Forall (fun d => d <> 0) (divisors R Rplus Rminus Rmult Rdiv 0 1 ly ops s0) ->
+  (forall j, (j < nbp tp)%nat -> bd (run R Rplus Rminus Rmult Rdiv 0 1 ly ops s0) j <> 0) ->
+  let out := sv (run R Rplus Rminus Rmult Rdiv 0 1 ly ops s0) in
+  (exists y, sat ly tp s0 out y) /\
+  (forall x y, sat ly tp s0 x y ->
+     forall b k, (b < nb tp)%nat -> (k < pl ly b)%nat -> x (cs ly b + k)%nat = out (cs ly b + k)%nat).
+Proof. exact arr_solve_correct. Qed.
+
+(* non-vacuity: the checker accepts the index structure jaxley builds for the cell
+   parents [-1,0,0,1], compartments [2,1,3,2] (branch 1 is padded from 1 to 3 slots) ... *)
+Example C01_array_checker_accepts :
+  check_idx 4 2 [None; Some 0; Some 0; Some 1]%nat [Some 0; Some 1; None; None]%nat [[1; 2]; [3]]%nat [0; 1]%nat
+            [0; 2; 5; 8]%nat [2; 3; 3; 2]%nat [2; 1; 3; 2]%nat
+            [([(1, 0); (2, 0)], [(0, 0)]); ([(3, 1)], [(1, 1)])]%nat [0]%nat = true.
+Proof. vm_compute. reflexivity. Qed.
+
+(* ... and it is not trivial: the same structure with the levels processed in the wrong
+   order, or with a branch point that is never eliminated from its parent's last row, is
+   rejected *)
+Example C01_array_checker_rejects :
+  check_idx 4 2 [None; Some 0; Some 0; Some 1]%nat [Some 0; Some 1; None; None]%nat [[1; 2]; [3]]%nat [0; 1]%nat
+            [0; 2; 5; 8]%nat [2; 3; 3; 2]%nat [2; 1; 3; 2]%nat
+            [([(3, 1)], [(1, 1)]); ([(1, 0); (2, 0)], [(0, 0)])]%nat [0]%nat = false /\
+  check_idx 4 2 [None; Some 0; Some 0; Some 1]%nat [Some 0; Some 1; None; None]%nat [[1; 2]; [3]]%nat [0; 1]%nat
+            [0; 2; 5; 8]%nat [2; 3; 3; 2]%nat [2; 1; 3; 2]%nat
+            [([(1, 0); (2, 0)], [(0, 0)]); ([(3, 1)], [])]%nat [0]%nat = false.
+Proof. vm_compute. split; reflexivity. Qed.
